@@ -181,29 +181,41 @@ def run_query_case(case):
     heap, index_of = world.build_world(case["W"])
     before = set(index_of)
     shared = {} if case.get("share_vars") else None
-    builders = []
+    builders = {}
     out = dict(case)
     out["evs"] = []
-    try:
-        froms = {} if case.get("share_froms") else None
-        for q in case["qs"]:
-            b = QueryBuilder(q, heap, shared)
-            if froms is not None:
-                b.froms = froms
-            b.build()
-            builders.append(b)
-    except Exception as e:           # building must not fail on a well-sorted program
+    froms = {} if case.get("share_froms") else None
+    # queries named by a "build" event are constructed when the history reaches it (under the configuration active
+    # then); all others before the history starts
+    late = {ev["qi"] for ev in case["evs"] if ev["op"] == "build"}
+
+    def construct(qi):
+        b = QueryBuilder(case["qs"][qi - 1], heap, shared)
+        if froms is not None:
+            b.froms = froms
+        b.build()
+        builders[qi] = b
+
+    def build_failed(e):
         out["build_exc"] = exc_name(e) + ": " + str(e)[:200]
         out["build_tb"] = traceback.format_exc()[-1500:]
+        out["evs"] = []
         return out
+    try:
+        for qi in range(1, len(case["qs"]) + 1):
+            if qi not in late:
+                construct(qi)
+    except Exception as e:           # building must not fail on a well-sorted program
+        return build_failed(e)
+
     def snapshot():
         return ([(id(o), tuple(sorted((k, id(v)) for k, v in vars(o).items()))) for o in heap[:len(case["W"]["objs"])]],
-                [[id(x) for x in d] for b in builders for d in b.domlists])
+                [[id(x) for x in d] for _, b in sorted(builders.items()) for d in b.domlists])
 
     snap0 = snapshot()
     if case.get("dump_graph"):
         try:
-            out["graphs"] = [dump_graph(b) for b in builders]
+            out["graphs"] = [dump_graph(b) for _, b in sorted(builders.items())]
         except Exception as e:
             out["graphs"] = [{"k": "other:dump-failed:" + exc_name(e)} for _ in builders]
     evaluated = set()
@@ -219,7 +231,15 @@ def run_query_case(case):
             (enable_caching if ev["caching"] else disable_caching)()
             out["evs"].append(rec)
             continue
-        b = builders[ev["qi"] - 1]
+        if op == "build":
+            try:
+                construct(ev["qi"])
+            except Exception as e:
+                return build_failed(e)
+            snap0 = snapshot()
+            out["evs"].append(rec)
+            continue
+        b = builders[ev["qi"]]
         rec["exc"] = "none"
         HITS["n"] = 0
         world.PredicatePlan.reset(ev.get("at", 0))
@@ -313,33 +333,39 @@ def run_query_case(case):
     return out
 
 
-def _b2d(b):
-    return {k + 1: v for k, v in enumerate(b) if v != 0}
+# the value alphabet of index cases: abstract value v (1..) stands for ALPHABETS[name][v]; "falsy" starts with the
+# falsy members of common key sorts (a bound key is bound whatever its truthiness)
+ALPHABETS = {"int": [None, 1, 2, 3, 4, 5], "falsy": [None, 0, "", 2, "b", ()]}
 
 
-def _d2b(d, nkeys):
-    return [d.get(k, 0) for k in range(1, nkeys + 1)]
+def _b2d(b, alpha="int"):
+    return {k + 1: ALPHABETS[alpha][v] for k, v in enumerate(b) if v != 0}
+
+
+def _d2b(d, nkeys, alpha="int"):
+    return [ALPHABETS[alpha].index(d[k]) if k in d else 0 for k in range(1, nkeys + 1)]
 
 
 def run_index_case(case):
     """Family index (C20): a history of inserts/clears on the real IndexedCache;
     after every operation the listed lookups are probed with check and retrieve."""
     nkeys = case["nkeys"]
+    alpha = case.get("alpha", "int")
     cache = IndexedCache(list(range(1, nkeys + 1)))
     out = dict(case)
     out["evs"] = []
     for op in case["ops"]:
         if op["op"] == "insert":
             # the stored output is o - 1, so that output 1 is stored as the falsy value 0 (operator caches store booleans)
-            cache.insert(_b2d(op["b"]), op["o"] - 1)
+            cache.insert(_b2d(op["b"], alpha), op["o"] - 1)
             out["evs"].append({"op": "insert", "b": op["b"], "o": op["o"]})
         else:
             cache.clear()
             out["evs"].append({"op": "clear"})
         for lk in case["lookups"]:
             if any(lk):
-                out["evs"].append({"op": "check", "lk": lk, "res": bool(cache.check(_b2d(lk)))})
-            res = [[_d2b(r, nkeys), v + 1] for r, v in cache.retrieve(_b2d(lk))]
+                out["evs"].append({"op": "check", "lk": lk, "res": bool(cache.check(_b2d(lk, alpha)))})
+            res = [[_d2b(r, nkeys, alpha), v + 1] for r, v in cache.retrieve(_b2d(lk, alpha))]
             out["evs"].append({"op": "retrieve", "lk": lk, "res": res})
     del out["ops"], out["lookups"]
     return out
